@@ -118,7 +118,7 @@ def raise_event(kind: str, ex: BaseException, evs: list[dict], run_folder, desc:
     if fails:
         from .terms import from_json
         # with several failing invocations the caller sees one of them: its note must name that function and kwargs
-        attributed = any(f0["f"] in n and all(f"{p}=" in n and (v["f"] == "#arr" or repr(from_json(v)) in n)
+        attributed = any(f0["f"] in n and all(f"{p}=" in n and (v["f"] == "#arr" or ("None" if v["f"] == "#none" else repr(from_json(v))) in n)
                                               for p, v in f0["kwargs"])
                          for n in notes for f0 in fails)
     loaded = []
